@@ -190,6 +190,13 @@ Proof.
     destruct (fill r present) as [w|]; [|discriminate]. injection H as <-. simpl. f_equal. apply IH. reflexivity.
 Qed.
 
+Lemma find_ext' {A} (p q : A -> bool) l : (forall x, p x = q x) -> find p l = find q l.
+Proof. intros H. induction l as [|x r IH]; simpl; [reflexivity|]. rewrite H, IH. reflexivity. Qed.
+
+Scheme value_mind := Induction for value Sort Prop
+  with vfields_mind := Induction for vfields Sort Prop.
+Combined Scheme value_vfields_mutind from value_mind, vfields_mind.
+
 (* ====================================================================================== *)
 (* The model, for arbitrary facts satisfying what the property needs of them               *)
 (* ====================================================================================== *)
@@ -528,6 +535,11 @@ Section Main.
   Qed.
 
   (* ---------- an instance's own dict, decoded as its own class ---------- *)
+  Lemma tser_obj save c fs :
+    tser save (VObj c fs) = SMap (if save then SCons TYPE_KEY (SStr (qual modname c)) (fldser save fs) else fldser save fs).
+  Proof. reflexivity. Qed.
+  Lemma tser_int save z : tser save (VInt z) = SInt z.
+  Proof. reflexivity. Qed.
   Lemma sf_keys_fldser save fs : sf_keys (fldser save fs) = vf_keys fs.
   Proof. induction fs as [|k v r IH]; cbn [fields_ser sf_keys vf_keys]; [reflexivity|now rewrite IH]. Qed.
 
@@ -536,6 +548,10 @@ Section Main.
     induction fs as [|k' v r IH]; cbn [fields_ser sf_get vf_get option_map]; [reflexivity|]. destruct (String.eqb k' k); [reflexivity|exact IH].
   Qed.
 
+  Lemma map_fields_names {A} (g : string -> A) c :
+    map (fun f => (f_name f, g (f_name f))) (c_fields c) = map (fun n => (n, g n)) (field_names c).
+  Proof. unfold field_names. rewrite map_map. reflexivity. Qed.
+
   (* if every field of c decodes to the value fs holds for it, the class is rebuilt with exactly fs *)
   Lemma collect_construct_full c fs D : In c h -> vf_keys fs = field_names c ->
     (forall f, In f (c_fields c) -> assoc (f_name f) D = Some (Ok (getd (f_name f) fs))) ->
@@ -543,15 +559,10 @@ Section Main.
   Proof.
     intros Hin Hk HD. eexists. split; [apply (collect_map (fun f => getd (f_name f) fs)), HD|].
     unfold construct. rewrite (fill_map (fun f => getd (f_name f) fs)).
-    - change (map (fun f => (f_name f, getd (f_name f) fs)) (c_fields c))
-        with (map (fun f => (fun n => (n, getd n fs)) (f_name f)) (c_fields c)).
-      rewrite <- (map_map f_name (fun n => (n, getd n fs))). fold (field_names c).
+    - rewrite (map_fields_names (fun n => getd n fs)).
       rewrite (rebuild_list fs (field_names c) Hk (wf_fields_nodup c Hin)), vf_of_list. reflexivity.
-    - intros f Hf.
-      change (map (fun f => (f_name f, getd (f_name f) fs)) (c_fields c))
-        with (map (fun f => (fun n => (n, getd n fs)) (f_name f)) (c_fields c)).
-      rewrite <- (map_map f_name (fun n => (n, getd n fs))).
-      apply assoc_map_names. apply in_map, Hf.
+    - intros f Hf. rewrite (map_fields_names (fun n => getd n fs)).
+      apply (assoc_map_names (fun n => getd n fs)). apply in_map, Hf.
   Qed.
 
   Lemma entry_of_instance c save drop fs f : In c h -> In f (c_fields c) -> vf_keys fs = field_names c ->
@@ -616,7 +627,7 @@ Section Main.
   Proof.
     intros Hd Hid Hfc Hff Hk Hdrop.
     pose proof (wf_no_type_key d Hd) as Hnt.
-    cbn [to_ser].
+    rewrite tser_obj.
     assert (Hkeys : sf_keys (fldser false fs) = field_names d) by (rewrite sf_keys_fldser; exact Hk).
     assert (Ht : sf_get TYPE_KEY (fldser false fs) = None) by (apply sf_get_none; rewrite Hkeys; exact Hnt).
     rewrite (fser_plain _ _ _ Ht), (keys_of_plain _ Ht), Hkeys.
@@ -637,7 +648,7 @@ Section Main.
       destruct (wf_ancestor d base Hd Hanc) as [B [EB Hsub]]. rewrite EB.
       pose proof (find_class_some _ _ _ EB) as [HB HBn].
       assert (Hne : c_name B <> c_name d).
-      { rewrite HBn. intros E. apply (wf_acyclic d Hd). rewrite <- E. exact Hanc. }
+      { rewrite HBn. intros E. apply (wf_acyclic d Hd). rewrite E in Hanc. exact Hanc. }
       (* the base's own fields decode *)
       assert (HcB : exists present, collect (c_fields B)
                  (dkvs (ftype_of B) (model_drop (c_name B) dropo) (fldser false fs)) = Ok present).
@@ -683,4 +694,265 @@ Section Main.
       + exfalso. pose proof (choose_none _ _ Ech d Hddesc) as X.
         rewrite (has_all_ext d _ _ Hreq), has_all_self in X. discriminate.
   Qed.
+
+  (* ---------- C14_drop on flat data: exactly the base, unknown keys dropped ---------- *)
+  Definition int_entry (kvs : sfields) (k : string) : option value :=
+    match sf_get k kvs with Some (SInt z) => Some (VInt z) | _ => None end.
+  Definition present_of (kvs : sfields) (l : list fdecl) : list (string * value) :=
+    flat_map (fun f => match int_entry kvs (f_name f) with Some v => [(f_name f, v)] | None => [] end) l.
+
+  Lemma int_get kvs k s : int_kvs kvs = true -> sf_get k kvs = Some s -> exists z, s = SInt z.
+  Proof.
+    induction kvs as [|k' s' r IH]; simpl; intros Hi Hg; [discriminate|].
+    destruct s'; try discriminate. destruct (String.eqb k' k); [injection Hg as <-; eauto|auto].
+  Qed.
+
+  Lemma collect_flat kvs dec l :
+    (forall f, In f l -> assoc (f_name f) dec = option_map Ok (int_entry kvs (f_name f))) ->
+    collect l dec = Ok (present_of kvs l).
+  Proof.
+    induction l as [|f r IH]; simpl; intros H; [reflexivity|].
+    rewrite (H f (or_introl eq_refl)). assert (IH' := IH (fun x Hx => H x (or_intror Hx))).
+    destruct (int_entry kvs (f_name f)); simpl; rewrite IH'; reflexivity.
+  Qed.
+
+  Lemma assoc_present_notin kvs l k : ~ In k (map f_name l) -> assoc k (present_of kvs l) = None.
+  Proof.
+    induction l as [|f r IH]; simpl; intros H; [reflexivity|].
+    destruct (int_entry kvs (f_name f)); simpl.
+    - destruct (String.eqb (f_name f) k) eqn:E; [apply String.eqb_eq in E; exfalso; apply H; left; exact E|].
+      apply IH. intros X. apply H. right. exact X.
+    - apply IH. intros X. apply H. right. exact X.
+  Qed.
+
+  Lemma assoc_present kvs l f : NoDup (map f_name l) -> In f l ->
+    assoc (f_name f) (present_of kvs l) = int_entry kvs (f_name f).
+  Proof.
+    induction l as [|g r IH]; simpl; intros Hn Hin; [contradiction|].
+    inversion Hn as [|? ? Hx Hr]; subst. destruct Hin as [->|Hin].
+    - destruct (int_entry kvs (f_name f)) eqn:E; simpl.
+      + rewrite String.eqb_refl. reflexivity.
+      + apply assoc_present_notin, Hx.
+    - assert (Hne : String.eqb (f_name g) (f_name f) = false).
+      { apply String.eqb_neq. intros E. apply Hx. rewrite E. apply in_map, Hin. }
+      destruct (int_entry kvs (f_name g)); simpl; rewrite ?Hne; apply IH; assumption.
+  Qed.
+
+  Lemma fill_spec kvs present l : int_kvs kvs = true ->
+    (forall f, In f l -> assoc (f_name f) present = int_entry kvs (f_name f)) ->
+    fill l present = match spec_fill l kvs with Some vs => Ok vs | None => Err (Raise "RuntimeError") end.
+  Proof.
+    intros Hi. induction l as [|f r IH]; simpl; intros H; [reflexivity|].
+    rewrite (H f (or_introl eq_refl)). rewrite (IH (fun x Hx => H x (or_intror Hx))).
+    unfold int_entry. destruct (sf_get (f_name f) kvs) as [s|] eqn:E.
+    - destruct (int_get kvs _ s Hi E) as [z ->]. destruct (spec_fill r kvs); reflexivity.
+    - destruct (f_default f); [|reflexivity]. destruct (spec_fill r kvs); reflexivity.
+  Qed.
+
+  Theorem drop_flat_thm base dropo kvs B :
+    find_class h base = Some B -> flat_class B = true -> int_kvs kvs = true ->
+    sf_get TYPE_KEY kvs = None -> model_drop base dropo = true ->
+    fser base dropo (SMap kvs) = spec_drop B kvs.
+  Proof.
+    intros EB Hflat Hi Ht Hdrop. pose proof (find_class_some _ _ _ EB) as [HB HBn].
+    rewrite (fser_plain _ _ _ Ht), EB. rewrite <- HBn in Hdrop.
+    assert (Hc : collect (c_fields B) (dkvs (ftype_of B) (model_drop (c_name B) dropo) kvs) = Ok (present_of kvs (c_fields B))).
+    { apply collect_flat. intros f Hf.
+      assert (Hne : String.eqb (f_name f) TYPE_KEY = false).
+      { apply String.eqb_neq. intros E. apply (wf_no_type_key B HB). rewrite <- E. apply in_map, Hf. }
+      rewrite assoc_decode, Hne, (ftype_of_field B f (wf_fields_nodup B HB) Hf), (flat_class_ty B f Hflat Hf).
+      unfold int_entry. destruct (sf_get (f_name f) kvs) as [s|] eqn:E; [|reflexivity].
+      destruct (int_get kvs _ s Hi E) as [z ->]. reflexivity. }
+    rewrite (build_self _ _ _ _ _ Hc (or_intror Hdrop)).
+    unfold construct, spec_drop. rewrite (fill_spec kvs _ _ Hi).
+    - destruct (spec_fill (c_fields B) kvs); reflexivity.
+    - intros f Hf. apply assoc_present; [apply (wf_fields_nodup B HB)|exact Hf].
+  Qed.
+
+  (* ---------- C14_dc_types: the type entries restore every class reached through dataclass-typed fields ---------- *)
+  Lemma qual_inj a b : qual modname a = qual modname b -> a = b.
+  Proof. unfold qual. intros H. apply append_inv_head in H. apply append_inv_head in H. exact H. Qed.
+
+  Lemma locate_qual c C : find_class h c = Some C -> locate h modname (qual modname c) = Some C.
+  Proof.
+    unfold locate, find_class. intros H. rewrite <- H. apply find_ext'. intros x.
+    destruct (String.eqb (c_name x) c) eqn:E.
+    - apply String.eqb_eq in E. rewrite E. apply String.eqb_refl.
+    - apply String.eqb_neq. intros X. apply qual_inj in X. apply String.eqb_neq in E. contradiction.
+  Qed.
+
+  Lemma strs_eq_eq a b : strs_eq a b = true -> a = b.
+  Proof.
+    revert b. induction a as [|x r IH]; intros [|y s]; simpl; intros H; try discriminate; [reflexivity|].
+    apply andb_true_iff in H as [H1 H2]. apply String.eqb_eq in H1. subst. f_equal. apply IH, H2.
+  Qed.
+
+  Lemma dc_types_mutual :
+    (forall v, wt h v = true -> dc_only v = true -> forall b dropo, fser b dropo (tser true v) = Ok v)
+    /\ (forall fs, forall C drop, wt_fields h C fs = true -> dc_only_fields fs = true ->
+          forall k v, vf_get k fs = Some v ->
+          exists t, ftype_of C k = Some t /\ decode_one t drop (tser true v) = Ok v).
+  Proof.
+    apply value_vfields_mutind.
+    - intros z H. discriminate.
+    - intros c fs IH Hwt Hdc b dropo. cbn [wt] in Hwt.
+      destruct (find_class h c) as [C|] eqn:EC; [|discriminate].
+      apply andb_true_iff in Hwt as [Hkeys Hwf']. apply strs_eq_eq in Hkeys.
+      pose proof (find_class_some _ _ _ EC) as [HC HCn]. cbn [dc_only] in Hdc.
+      rewrite tser_obj.
+      rewrite (fser_typed b dropo _ (qual modname c)); [|cbn [sf_get]; rewrite String.eqb_refl; reflexivity].
+      rewrite (locate_qual c C EC).
+      assert (Hk : keys_of (SCons TYPE_KEY (SStr (qual modname c)) (fldser true fs)) = field_names C).
+      { unfold keys_of. cbn [sf_keys filter]. rewrite String.eqb_refl. cbn [negb].
+        rewrite sf_keys_fldser, Hkeys. apply filter_all. intros k Hk.
+        apply negb_true_iff, String.eqb_neq. intros ->. exact (wf_no_type_key C HC Hk). }
+      rewrite Hk.
+      destruct (collect_construct_full C fs
+                  (dkvs (ftype_of C) (model_drop (c_name C) dropo) (SCons TYPE_KEY (SStr (qual modname c)) (fldser true fs)))
+                  HC Hkeys) as [present [Hc Hcon]].
+      { intros f Hf.
+        apply (entry_of_instance C true _ fs f HC Hf Hkeys) with (pre := SCons TYPE_KEY (SStr (qual modname c)) SNil).
+        - intros v Hv. destruct (IH C (model_drop (c_name C) dropo) Hwf' Hdc _ _ Hv) as [t [Ht Hd]].
+          rewrite (ftype_of_field C f (wf_fields_nodup C HC) Hf) in Ht. injection Ht as <-. exact Hd.
+        - right. eexists. reflexivity. }
+      rewrite (build_self _ _ _ _ _ Hc).
+      + rewrite Hcon, HCn. reflexivity.
+      + left. apply extras_nil_iff, has_all_self.
+    - intros items _ H. discriminate.
+    - intros items _ H. discriminate.
+    - intros C drop _ _ k v H. discriminate.
+    - intros k v IHv r IHr C drop Hwt Hdc k' v' Hget.
+      cbn [wt_fields] in Hwt. apply andb_true_iff in Hwt as [Hhead Hrest].
+      cbn [dc_only_fields] in Hdc. apply andb_true_iff in Hdc as [Hdv Hdr].
+      cbn [vf_get] in Hget. destruct (String.eqb k k') eqn:E.
+      + apply String.eqb_eq in E. subst k'. injection Hget as <-.
+        destruct (ftype_of C k) as [t|] eqn:Et; [|discriminate]. exists t. split; [reflexivity|].
+        destruct t as [|b|b|b]; destruct v as [z|c fs|items|items]; try discriminate.
+        * reflexivity.
+        * cbn [decode_one]. apply IHv; assumption.
+        * destruct items; [reflexivity|discriminate].
+        * destruct items; [reflexivity|discriminate].
+      + eapply IHr; eauto.
+  Qed.
 End Main.
+
+(* ====================================================================================== *)
+(* The model instantiated with the REGENERATED facts                                        *)
+(* ====================================================================================== *)
+(* the enumeration order is arbitrary: all that is used is that it lists exactly the classes below *)
+Definition enum_ok (h : hier) (enum : string -> list string) : Prop :=
+  forall b n, In n (enum b) <-> In n (map c_name (descendants h b)).
+
+Definition eff_drop_gen (h : hier) (base : string) (dropo : option bool) : bool :=
+  model_drop DROP_RULE_GEN DIS_ABSENT_GEN h base dropo.
+
+(* bridges: what the property needs of the generated facts (each closes by computation, or the build breaks here) *)
+Lemma bridge_sort_key : SORT_KEY_GEN = KInitCount.
+Proof. reflexivity. Qed.
+Lemma bridge_superset_cmp : SUPERSET_CMP_GEN = CGe.
+Proof. reflexivity. Qed.
+Lemma bridge_pick : PICK_GEN = PickFirst.
+Proof. reflexivity. Qed.
+(* drop_extra_fields defaults to "not decode_into_subclasses"; an explicit value is used as given *)
+Lemma bridge_drop_rule h base :
+  eff_drop_gen h base None = negb (dis_of_gen h base) /\ forall b, eff_drop_gen h base (Some b) = b.
+Proof. split; reflexivity. Qed.
+Lemma bridge_type_key : DC_TYPE_KEY = SPEC_TYPE_KEY.
+Proof. reflexivity. Qed.
+
+Lemma result_admissible_gen h modname enum base dropo kvs v :
+  wf_hier_gen h = true -> enum_ok h enum -> sf_get DC_TYPE_KEY kvs = None ->
+  from_ser_gen h modname enum base dropo (SMap kvs) = Ok v ->
+  exists R fs r, v = VObj R fs /\ find_class h R = Some r /\ vf_keys fs = field_names r
+                 /\ admissible h base (sf_keys kvs) (eff_drop_gen h base dropo) R = true.
+Proof.
+  intros Hwf He. unfold from_ser_gen, eff_drop_gen.
+  apply result_admissible; auto using bridge_sort_key, bridge_superset_cmp, bridge_pick.
+Qed.
+
+Lemma superset_gen h modname enum base dropo kvs R fs B :
+  wf_hier_gen h = true -> enum_ok h enum -> sf_get DC_TYPE_KEY kvs = None ->
+  find_class h base = Some B -> has_all B (sf_keys kvs) = false -> eff_drop_gen h base dropo = false ->
+  from_ser_gen h modname enum base dropo (SMap kvs) = Ok (VObj R fs) ->
+  min_superset h base (sf_keys kvs) R = true.
+Proof.
+  intros Hwf He Ht HB Hx Hd H.
+  destruct (result_admissible_gen _ _ _ _ _ _ _ Hwf He Ht H) as [R' [fs' [r [Hv [_ [_ Ha]]]]]].
+  injection Hv as <- <-. unfold admissible in Ha. rewrite HB, Hd, Hx in Ha. exact Ha.
+Qed.
+
+Lemma no_extras_gen h modname enum base dropo kvs R fs B :
+  wf_hier_gen h = true -> enum_ok h enum -> sf_get DC_TYPE_KEY kvs = None ->
+  find_class h base = Some B -> has_all B (sf_keys kvs) = true ->
+  from_ser_gen h modname enum base dropo (SMap kvs) = Ok (VObj R fs) ->
+  R = base.
+Proof.
+  intros Hwf He Ht HB Hx H.
+  destruct (result_admissible_gen _ _ _ _ _ _ _ Hwf He Ht H) as [R' [fs' [r [Hv [_ [_ Ha]]]]]].
+  injection Hv as <- <-. unfold admissible in Ha. rewrite HB, Hx, orb_true_r in Ha. apply String.eqb_eq, Ha.
+Qed.
+
+Lemma identified_gen h modname enum base dropo d fs :
+  wf_hier_gen h = true -> enum_ok h enum ->
+  In d h -> identified h base d = true -> flat_class d = true -> flat_fields fs = true ->
+  vf_keys fs = field_names d -> eff_drop_gen h base dropo = false ->
+  from_ser_gen h modname enum base dropo (to_ser_gen modname false (VObj (c_name d) fs)) = Ok (VObj (c_name d) fs).
+Proof.
+  intros Hwf He. unfold from_ser_gen, to_ser_gen, eff_drop_gen.
+  apply identified_thm; auto using bridge_sort_key, bridge_superset_cmp, bridge_pick.
+Qed.
+
+Lemma drop_exact_base_gen h modname enum base dropo kvs v :
+  wf_hier_gen h = true -> enum_ok h enum -> sf_get DC_TYPE_KEY kvs = None ->
+  eff_drop_gen h base dropo = true ->
+  from_ser_gen h modname enum base dropo (SMap kvs) = Ok v ->
+  exists B fs, find_class h base = Some B /\ v = VObj base fs /\ vf_keys fs = field_names B.
+Proof.
+  intros Hwf He Ht Hd H.
+  destruct (result_admissible_gen _ _ _ _ _ _ _ Hwf He Ht H) as [R [fs [r [Hv [Hr [Hk Ha]]]]]].
+  unfold admissible in Ha. destruct (find_class h base) as [B|] eqn:EB; [|discriminate].
+  rewrite Hd in Ha. simpl in Ha. apply String.eqb_eq in Ha. subst R.
+  exists B, fs. rewrite EB in Hr. injection Hr as <-. auto.
+Qed.
+
+Lemma drop_flat_gen h modname enum base dropo kvs B :
+  wf_hier_gen h = true ->
+  find_class h base = Some B -> flat_class B = true -> int_kvs kvs = true ->
+  sf_get DC_TYPE_KEY kvs = None -> eff_drop_gen h base dropo = true ->
+  from_ser_gen h modname enum base dropo (SMap kvs) = spec_drop B kvs.
+Proof.
+  intros Hwf. unfold from_ser_gen, eff_drop_gen. apply drop_flat_thm; auto.
+Qed.
+
+Lemma dc_types_partial_gen h modname enum base dropo v :
+  wf_hier_gen h = true -> wt h v = true -> dc_only v = true ->
+  from_ser_gen h modname enum base dropo (to_ser_gen modname true v) = Ok v.
+Proof.
+  intros Hwf Hwt Hdc. unfold from_ser_gen, to_ser_gen.
+  exact (proj1 (dc_types_mutual DC_TYPE_KEY SORT_KEY_GEN SUPERSET_CMP_GEN PICK_GEN DROP_RULE_GEN DIS_ABSENT_GEN
+                  CHILD_DROP_GEN h modname enum Hwf) v Hwt Hdc base dropo).
+Qed.
+
+(* the full-strength claim ("at every nesting level") is false of the faithful model: a dataclass inside a List[..]
+   is encoded by the registered cls.to_dict with default arguments, so its type entry is never written *)
+Definition refute_h : hier :=
+  [ mkc "Base" [] [mkf "a" TInt (Some (VInt 0))] (Some true);
+    mkc "D1" ["Base"] [mkf "a" TInt (Some (VInt 0)); mkf "b" TInt (Some (VInt 0))] None;
+    mkc "D3" ["Base"] [mkf "a" TInt (Some (VInt 0)); mkf "b" TInt (Some (VInt 0))] None;
+    mkc "H" [] [mkf "xs" (TList "Base") (Some (VList VNil))] None ].
+Definition refute_enum (b : string) : list string := rev (map c_name (descendants refute_h b)).
+Definition refute_v : value :=
+  VObj "H" (VCons "xs" (VList (VCons "" (VObj "D1" (VCons "a" (VInt 1) (VCons "b" (VInt 2) VNil))) VNil)) VNil).
+
+Lemma refute_enum_ok : enum_ok refute_h refute_enum.
+Proof. intros b n. unfold refute_enum. rewrite <- in_rev. reflexivity. Qed.
+
+Lemma dc_types_refuted :
+  exists h modname enum base dropo v,
+    wf_hier_gen h = true /\ enum_ok h enum /\ wt h v = true
+    /\ from_ser_gen h modname enum base dropo (to_ser_gen modname true v) <> Ok v.
+Proof.
+  exists refute_h, "m", refute_enum, "H", None, refute_v.
+  split; [vm_compute; reflexivity|]. split; [exact refute_enum_ok|]. split; [vm_compute; reflexivity|].
+  vm_compute. discriminate.
+Qed.
